@@ -357,7 +357,30 @@ def _generic_alias_parameter_order(ctx):
                                   {"hint": repr(hint), "aliased": repr(ref_hint), "what": what})
 
 
+def _annotated_cases_in_union_dump(ctx):
+    """'Annotated ... processed the same as wrapped types' also as a union case: the value is dumped by the case of its class (defect
+    #102: the case was registered under typing.Annotated and every dump raised KeyError)."""
+    import typing as t  # noqa: PLC0415
+    from decimal import Decimal  # noqa: PLC0415
+
+    table = [(t.Union[t.Annotated[Decimal, "meta"], int], [(Decimal("1.5"), "1.5"), (3, 3)]),
+             (t.Union[t.Annotated[t.List[Decimal], "m"], t.Annotated[str, 1], None], [([Decimal(1)], ["1"]), ("s", "s"), (None, None)]),
+             (t.Union[t.Annotated[Decimal, "meta"], t.Literal[5, "x"]], [(Decimal(2), "2"), (5, 5), ("x", "x")]),
+             (t.List[t.Union[t.Annotated[bytes, "b"], t.Annotated[Decimal, "d"]]], [([b"a", Decimal(1)], ["YQ==", "1"])])]
+    for dt, sc in MODES:
+        r = make_retort(dt, sc)
+        for hint, pairs in table:
+            made = attempt(r.get_dumper, hint)
+            for x, want in pairs:
+                out = attempt(made.value, x) if made.kind == "ok" else made
+                ctx.evaluated(("annotated-union-case", repr(hint), repr(x), dt.name, sc), nontrivial=True)
+                ctx.count("dumps")
+                if out.kind != "ok" or not _dump_eq(out.value, want):
+                    ctx.violation("dump-mismatch:Union:annotated-case", f"dump of {hint!r} value {x!r}: {out!r:.160}, documented {want!r} [{mode_name(dt, sc)}]", {"type": repr(hint), "x": repr(x)})
+
+
 DIRECTED = {
+    "annotated-cases-in-union-dump": _annotated_cases_in_union_dump,
     "literal-lookalikes-in-union-dump": _literal_lookalikes_in_union_dump,
     "generic-alias-parameter-order": _generic_alias_parameter_order,
     "containers-x-pool": _containers_x_pool,
